@@ -228,7 +228,7 @@ func c0506Run(prop, prefix string) func(r *ev.Run) {
 	return func(r *ev.Run) {
 		L, D := 7, 1
 		if r.Thorough() {
-			L, D = 10, 2
+			L, D = 9, 2
 		}
 		r.Rule = fmt.Sprintf("real ThrottledRecorder with injected ratelimit.Clock; alphabet {S,W,X upstream calls restricted to what the motion processor can emit, Sf/Wf = wrapped recorder's start fails during this call, clock advances of half a tick / one tick / min-length ticks (= min-refill) / 10*capacity ticks}; (a) explicit-state BFS to a fixpoint on canonical keys for 10 exact-tick parameter sets (capacity 1..6 frames, min length 1..4 frames, rates 0.5..2 frames/s) (covers request/clock schedules of any length), (b) every well-formed string of length %d with <=%d failing starts for those and 2 awkward-rate sets. C05 oracle: arrival-curve monitor (bucket + refill earned + 2 frames, 1%% rate margin for awkward rates) on frames reaching the wrapped recorder, checked on every interval. C06 oracle: step-by-step reference of the statement (transparent with budget, cut on 0 tokens, restart only with a full clip, one event per suppressed start/cut, pairing). Non-trivial = new canonical state / execution forwarding frames.", L, D)
 		r.Bounds["tree_depth"] = L
